@@ -128,6 +128,8 @@ def map_type(q):
     if '(*)' in q or re.search(r'\)\s*(const)?\s*(noexcept)?$', q) and '(' in q and not q.startswith('std::') and 'lambda' not in q:
         raise Unsupported('function type ' + q)
     base = strip_cv(q)
+    if base in ('ada::url_search_params::key_value_pair', 'key_value_pair'):
+        base = 'std::pair<std::string, std::string>'
     am = re.match(r'^(.*?)\s*\[(\d*)\]$', base)
     if am:
         it = map_type(am.group(1))
